@@ -247,6 +247,8 @@ enum OffSpec {
 	Zero,
 	Random,
 	Chosen([u8; 32]),
+	/// the kernel's excess key is given (several transactions signed under one excess key); offset = blind_sum - key
+	Excess([u8; 32]),
 }
 
 struct Spec {
@@ -255,7 +257,7 @@ struct Spec {
 	feat: KernelFeatures,
 	kv: char,
 	off: OffSpec,
-	off_tag: &'static str, // "z" zero, "r" random, "c" complementary half
+	off_tag: &'static str, // "z" zero, "r" random, "c" complementary half, "x" excess key shared with other transactions
 	comp: usize,
 	role: &'static str,
 	v2: bool,
@@ -282,6 +284,7 @@ struct Pool {
 	base: Vec<Base>,
 	comps: Vec<Vec<usize>>,
 	compl: Option<(usize, usize)>,
+	shared: Vec<usize>,
 	linked: Vec<HashSet<usize>>,
 	coinbases: HashMap<u64, (Output, TxKernel)>,
 	cb_key: Identifier,
@@ -470,6 +473,18 @@ fn build_spec(w: &World, s: &Spec) -> Base {
 		OffSpec::Chosen(o) => {
 			tx_with_offset(w, &s.ins, &s.outs, s.feat, &BlindingFactor::from_slice(o))
 		}
+		OffSpec::Excess(e) => {
+			let mut sum = BlindSum::new();
+			for c in &s.ins {
+				sum = sum.sub_key_id(c.key_id.to_value_path(c.value));
+			}
+			for (v, k) in &s.outs {
+				sum = sum.add_key_id(k.to_value_path(*v));
+			}
+			let blind_sum = w.kc.blind_sum(&sum).expect("blind sum");
+			let offset = blind_sum.split(&BlindingFactor::from_slice(e), w.kc.secp()).expect("split");
+			tx_with_offset(w, &s.ins, &s.outs, s.feat, &offset)
+		}
 	};
 	if s.v2 {
 		// the representation transactions have after being read at protocol version <= 2
@@ -621,6 +636,37 @@ fn build_pool(
 		Some((i1, pl.specs.len() - 1))
 	};
 
+	// three independent singles whose (different) kernels are signed under ONE excess key: a kernel is identified by
+	// all of its fields, not by its excess
+	let shared = {
+		let mut e = [0u8; 32];
+		loop {
+			pl.p.fill(&mut e);
+			e[0] &= 0x7f;
+			if e.iter().any(|b| *b != 0) {
+				break;
+			}
+		}
+		let mut idxs = vec![];
+		for k in 0..3u64 {
+			let c = pl.new_comp();
+			let ins = pl.exts(1);
+			pl.add(c, ["shx.P", "shx.Q", "shx.R"][k as usize], ins, 1, Some(OffSpec::Excess(e)));
+			let i = pl.specs.len() - 1;
+			let fee = pl.specs[i].fee;
+			let (feat, kv) = match k {
+				0 => (KernelFeatures::Plain { fee: fee_fields(fee) }, 'P'),
+				1 => (height_locked(fee, 1), 'H'),
+				_ => (height_locked(fee, 7), 'H'),
+			};
+			pl.specs[i].feat = feat;
+			pl.specs[i].kv = kv;
+			pl.specs[i].off_tag = "x";
+			idxs.push(i);
+		}
+		idxs
+	};
+
 	let Planner { specs, comps, next_key, .. } = pl;
 
 	// build in parallel
@@ -675,6 +721,7 @@ fn build_pool(
 		base,
 		comps,
 		compl,
+		shared,
 		linked,
 		coinbases: HashMap::new(),
 		cb_key,
@@ -903,12 +950,29 @@ fn gen_plan(pool: &Pool, p: &mut Prng) -> Plan {
 			};
 			add(&mut flat, i, false);
 		}
-	} else if s < 96 {
+	} else if s < 91 {
 		strategy = "random";
 		let mut tries = 0;
 		while flat.len() < target && tries < 100 {
 			tries += 1;
 			add(&mut flat, p.usize_below(nb), false);
+		}
+	} else if s < 96 {
+		strategy = "shared_excess";
+		let k = 2 + p.usize_below(2);
+		let mut sh = pool.shared.clone();
+		p.shuffle(&mut sh);
+		for i in sh.into_iter().take(k) {
+			flat.push(i);
+		}
+		let mut tries = 0;
+		while flat.len() < target.max(2) && tries < 100 {
+			tries += 1;
+			let i = p.usize_below(nb);
+			if flat.iter().any(|j| pool.linked[*j].contains(&i)) {
+				continue;
+			}
+			add(&mut flat, i, false);
 		}
 	} else {
 		strategy = "complementary";
@@ -1509,6 +1573,13 @@ fn run_case(cx: &mut CaseCtx, p: &mut Prng, acc: &mut Acc) {
 			acc.eval(&dsig, true, 1);
 			acc.count("deaggregations_checked", 1);
 			acc.count(&format!("deaggregations_remainder_offset_{}", rz), 1);
+			{
+				// a kernel excess occurring on both sides of the split (different kernels signed under one key)
+				let sub_ex: HashSet<[u8; 33]> = subset.iter().flat_map(|t| t.kernels().iter().map(|k| k.excess.0)).collect();
+				if rest.iter().any(|t| t.kernels().iter().any(|k| sub_ex.contains(&k.excess.0))) {
+					acc.count("deaggregations_with_one_excess_key_on_both_sides", 1);
+				}
+			}
 			let sub_idx: Vec<usize> = (0..n_ops).filter(|i| member[*i]).collect();
 			// deaggregate aggregates the subset first: a failure there is the aggregate oracle's business
 			if let Err(e) = try_aggregate(&subset) {
@@ -2069,9 +2140,9 @@ fn main() {
 	run.set_rule(
 		"Per (shard, round): a pool of 39 valid base transactions with known openings is built from the seed \
 		 (10 independent singles with 1-3 inputs/outputs, a burn without outputs, 3 two-chains, a full spend, a three-chain, \
-		 a triangle, 2 diamonds, a 3-way fan-out, a pair with complementary offsets k / n-k; kernel variant Plain/HeightLocked/NRD, \
+		 a triangle, 2 diamonds, a 3-way fan-out, a pair with complementary offsets k / n-k, three singles whose different kernels share one excess key; kernel variant Plain/HeightLocked/NRD, \
 		 offset zero (30%) or random, 1/8 with v2-style FeaturesAndCommit inputs; inputs are coins that exist on no chain). \
-		 A case picks 1-8 distinct base transactions (strategies: independent / whole-or-part component plus extras / random / complementary), \
+		 A case picks 1-8 distinct base transactions (strategies: independent / whole-or-part component plus extras / random / shared excess key / complementary), \
 		 in 35% of the cases pre-aggregates random groups into multi-kernel operands, and checks aggregate() against a reference \
 		 computed with HashMap multiset arithmetic over commitments, an own 256-bit mod-n adder and the planned fees; then every \
 		 permutation (<= 5 operands, 30 sampled beyond), 6 random nested/partition groupings (+ flat base list), 3 de-aggregations \
@@ -2182,6 +2253,7 @@ fn main() {
 		run.require("permutations checked", c("permutations_checked"), scale(12000, 96000));
 		run.require("groupings checked", c("groupings_checked"), scale(2500, 20000));
 		run.require("deaggregations checked", c("deaggregations_checked"), scale(650, 5200));
+		run.require("deaggregations with one excess key on both sides of the split", c("deaggregations_with_one_excess_key_on_both_sides"), scale(10, 80));
 		run.require("hydrations checked", c("hydrations_checked"), scale(1000, 8000));
 		run.require("kernel short ids checked", c("short_ids_checked"), scale(9000, 72000));
 	}
